@@ -124,6 +124,33 @@ def gen_loop():
         tpc_marks = False
     else:
         tpc_marks = prev_value("Loop.lean", "tpcMarksSuspend", "false") == "true"
+    # every cycle of every back-end calls resume_suspended_connections() before it blocks, whatever the threading mode: the call
+    # is a statement of the function's top level (not inside a block), it comes before the blocking call, and nothing evaluated
+    # before it in the same statement (left operands of a short-circuit) depends on the thread-per-connection mode
+    def resumes_every_cycle(fn, blocker):
+        body = _func_body(dsrc, fn)
+        if body is None:
+            return None
+        k = body.find("resume_suspended_connections (daemon)")
+        b = body.find(blocker)
+        if k < 0 or b < 0:
+            return None
+        if k > b:
+            return False
+        depth = body.count("{", 0, k) - body.count("}", 0, k)
+        st = max(body.rfind(";", 0, k), body.rfind("{", 0, k), body.rfind("}", 0, k))
+        before = body[st + 1:k]
+        return depth == 1 and "THREAD_PER_CONN" not in before
+    cyc = {}
+    for key, fn, blocker in (("selectResumesEveryCycle", "MHD_select", "MHD_SYS_select_ ("),
+                             ("pollAllResumesEveryCycle", "MHD_poll_all", "MHD_sys_poll_ ("),
+                             ("pollListenResumesEveryCycle", "MHD_poll_listen_socket", "MHD_sys_poll_ ("),
+                             ("epollResumesEveryCycle", "MHD_epoll", "epoll_wait (daemon->epoll_fd")):
+        r = resumes_every_cycle(fn, blocker)
+        cyc[key] = (prev_value("Loop.lean", key, "true") == "true") if r is None else r
+    # thread-per-connection with select(): the wait for writability is bounded when there is no connection timeout
+    m = re.search(r"else if \(MHD_EVENT_LOOP_INFO_WRITE == con->event_loop_info\)\s*\{[^}]*?tv\.tv_sec = (\d+);", tb, re.S)
+    sel_wr_bounded = bool(m and int(m.group(1)) > 0)
     # the state -> event_loop_info table of MHD_connection_update_event_loop_info (unconditional cases only)
     csrc = src("src/microhttpd/connection.c")
     # MHD_connection_handle_idle, case FULL_REPLY_SENT: is connection_reset() followed by an unconditional `continue` (the state
@@ -176,6 +203,11 @@ def gen_loop():
     out += "def tpcRechecksSuspend : Bool := %s\n" % ("true" if tpc_recheck else "false")
     out += "/-- … and remembers a suspension at the moment its own handler suspends (not only when it finds `suspended` set at the loop head) -/\n"
     out += "def tpcMarksSuspend : Bool := %s\n" % ("true" if tpc_marks else "false")
+    out += "/-- the back-end's cycle calls resume_suspended_connections() before it blocks, in every threading mode -/\n"
+    for k in ("selectResumesEveryCycle", "pollAllResumesEveryCycle", "pollListenResumesEveryCycle", "epollResumesEveryCycle"):
+        out += "def %s : Bool := %s\n" % (k, "true" if cyc[k] else "false")
+    out += "/-- thread_main_handle_connection, select(): a bounded wait (1 s) while a reply is blocked and there is no connection timeout -/\n"
+    out += "def tpcSelectWriteBounded : Bool := %s\n" % ("true" if sel_wr_bounded else "false")
     out += "/-- MHD_connection_handle_idle goes on with the state loop (`continue`) after connection_reset() in case FULL_REPLY_SENT -/\n"
     out += "def replySentContinues : Bool := %s\n" % ("true" if reset_continues else "false")
     out += "/-- states for which MHD_connection_update_event_loop_info unconditionally answers READ / WRITE / PROCESS -/\n"
@@ -322,7 +354,7 @@ class Case:
         sp = max([p.get("sigpipe", 0) for p in self.P] + [0])
         tcp = max([p.get("tcp", 0) for p in self.P] + [0])
         out = ["case " + self.name,
-               "cfg mode=%s suspend=%d%s%s%s" % ({"poll": "poll-thr", "tpc": "tpc-poll"}.get(self.mode, self.mode), self.suspend, (" sigpipe=1" if sp else "") + (" tcp=1" if tcp else ""), " mem=%d" % mem if mem else "", " timeout=%d" % self.timeout if self.timeout else ""),
+               "cfg mode=%s suspend=%d%s%s%s" % ({"poll": "poll-thr", "tpc": "tpc-poll", "tpcs": "tpc-select"}.get(self.mode, self.mode), self.suspend, (" sigpipe=1" if sp else "") + (" tcp=1" if tcp else ""), " mem=%d" % mem if mem else "", " timeout=%d" % self.timeout if self.timeout else ""),
                "start"]
         for p in self.P:
             out += p["setup"]
@@ -578,7 +610,10 @@ def tpc_steps(r):
     return steps
 
 
-def canon_block(blk):
+TPC_MODES = ("tpc", "tpcs")     # thread-per-connection with poll() / with select()
+
+
+def canon_block_of(blk, case):
     """harness `tpark on=sock ev=r tmo=-1` -> the model's vocabulary"""
     if blk is None:
         return "?"
@@ -588,6 +623,8 @@ def canon_block(blk):
     t = int(kv.get("tmo", "-9"))
     if kv.get("on") == "itc":
         return "tpark on=itc ev=r tmo=%d" % t
+    if t > 0 and case.mode == "tpcs" and case.timeout == 0:
+        return "tpark on=sock ev=%s tmo=%d" % (kv.get("ev", ""), t)       # the bounded wait of the select() back-end while a reply is blocked
     return "tpark on=sock ev=%s tmo=%s" % (kv.get("ev", ""), "inf" if t < 0 else "0" if t == 0 else "some")
 
 
@@ -596,7 +633,8 @@ def snap_sets(snap):
 
 
 def to_driver_tpc(case, items, tstats=None):
-    inp, exp, lab = ["mode tpc suspend=%d" % case.suspend], ["ok"], ["mode"]
+    inp, exp, lab = ["mode %s suspend=%d" % (case.mode, case.suspend)], ["ok"], ["mode"]
+    canon_block = lambda blk: canon_block_of(blk, case)
     def tokens(calls):
         toks = []
         for kind, c, arg, snap in calls:
@@ -635,6 +673,8 @@ def to_driver_tpc(case, items, tstats=None):
                         tstats["tpc_resume_before_loop_head"] = tstats.get("tpc_resume_before_loop_head", 0) + 1
                     b = canon_block(st.block)
                     key = "tpc_block_" + ("exit" if b == "texit" else "itc" if "on=itc" in b else "sock_" + b.rsplit("tmo=", 1)[1])
+                    if case.mode == "tpcs":
+                        tstats["tpc_select_thread_steps"] = tstats.get("tpc_select_thread_steps", 0) + 1
                     tstats[key] = tstats.get(key, 0) + 1
     return inp, exp, lab
 
@@ -977,8 +1017,8 @@ def conn_sequences(length, suspends, with_hold, with_race=False):
 def gen_exhaustive(mode, length, prof_pairs, strict=False, suspend=1):
     """all schedules of exactly `length` events over 2 connections (shorter ones are prefixes padded with idle rounds)"""
     for pa, pb in prof_pairs:
-        sa = conn_sequences(length, profile(pa, 0).get("suspends", False), mode == "select", mode == "tpc")
-        sb = conn_sequences(length, profile(pb, 1).get("suspends", False), mode == "select", mode == "tpc")
+        sa = conn_sequences(length, profile(pa, 0).get("suspends", False), mode == "select", mode in TPC_MODES)
+        sb = conn_sequences(length, profile(pb, 1).get("suspends", False), mode == "select", mode in TPC_MODES)
         for a in sa:
             if "A" not in a:
                 continue
@@ -1002,14 +1042,14 @@ def gen_directed():
     one = [("A",), ("Q",)]
     two = [("A", "A"), ("Q", "-"), ("-", "Q")]
     two_b = [("A", "A"), ("Q", "Q")]
-    for mode in ("select", "epoll", "poll", "tpc"):
-        for strict in ((False, True) if mode not in ("poll", "tpc") else (True,)):
+    for mode in ("select", "epoll", "poll", "tpc", "tpcs"):
+        for strict in ((False, True) if mode not in ("poll", "tpc", "tpcs") else (True,)):
             for profs, evs in ((["k"], one), (["G", "k"], two), (["G", "k"], two_b), (["k", "G"], two), (["p"], one), (["G", "p"], two),
                                (["G", "K"], two), (["k", "k"], two_b), (["F"], one), (["G", "F"], two), (["F", "C"], two_b), (["f"], one),
                                (["o"], one), (["u"], one), (["t"], one), (["G", "o"], two), (["o", "C"], two_b)):
                 cases.append(Case("d", mode, profs, evs, drain=100, strict=strict))
     # late replies in every back-end: the handler suspends, another thread resumes while the loop is idle
-    for mode in ("select", "epoll", "poll", "tpc"):
+    for mode in ("select", "epoll", "poll", "tpc", "tpcs"):
         for profs, evs in ((["S"], [("A",), ("Q",), ("-",), ("U",)]), (["L"], [("A",), ("Q",), ("-",), ("U",)]),
                            (["S", "G"], [("A", "A"), ("Q", "Q"), ("-", "-"), ("U", "-")]),
                            (["C", "S"], [("A", "A"), ("Q", "Q"), ("-", "-"), ("-", "-"), ("-", "-"), ("-", "-"), ("-", "U")])):
@@ -1019,12 +1059,14 @@ def gen_directed():
     for profs, evs in ((["S"], [("A",), ("Z",)]), (["L"], [("A",), ("Z",)]), (["S", "G"], [("A", "A"), ("Z", "Q")]),
                        (["C", "S"], [("A", "A"), ("Q", "Z")]), (["S", "S"], [("A", "A"), ("Z", "Z")]), (["L", "k"], [("A", "A"), ("Z", "Q")])):
         cases.append(Case("d", "tpc", profs, evs, drain=100, strict=True))
+        cases.append(Case("d", "tpcs", profs, evs, drain=100, strict=True))
     for tmo in (0, 5):      # connection timeouts: the thread's own deadline
         for profs, evs in ((["P"], [("A",), ("q",), ("-",), ("r",)]), (["G", "P"], [("A", "A"), ("Q", "q")]), (["K"], [("A",), ("q",)])):
             cases.append(Case("d", "tpc", profs, evs, drain=100, strict=True, timeout=tmo))
+            cases.append(Case("d", "tpcs", profs, evs, drain=100, strict=True, timeout=tmo))
     # pipelining: k complete requests delivered in one segment, or split anywhere (in particular at every request boundary), then
     # silence — every request must be answered in every back-end; alone, next to other connections, with late replies
-    for mode in ("select", "epoll", "poll", "tpc"):
+    for mode in ("select", "epoll", "poll", "tpc", "tpcs"):
         stricts = (False, True) if mode in ("select", "epoll") else (True,)
         for strict in stricts:
             for shape in "23DB":
@@ -1055,7 +1097,7 @@ def gen_directed():
 
 def gen_random(rng, mode, nconn=None):
     n = nconn or rng.choice([1, 2, 2, 3, 3])
-    pool = "GGCcSLPKEHMmRWkpf23DBl" if mode != "tpc" else "GGCcSSLLPKEHMmRkp23DBl"    # (W spins by design: one thread at zero timeout for ever)
+    pool = "GGCcSLPKEHMmRWkpf23DBl" if mode not in TPC_MODES else "GGCcSSLLPKEHMmRkp23DBl"    # (W spins by design: one thread at zero timeout for ever)
     small = rng.random() < 0.25
     if small:
         pool = "GCSOUNXMTkout"
@@ -1082,7 +1124,7 @@ def gen_random(rng, mode, nconn=None):
                     opts.append("H")
                 if P[c].get("suspends") and s["sent"] == 2 and not s["res"]:
                     opts += ["U", "U"]
-                if mode == "tpc" and P[c].get("suspends") and s["sent"] == 0 and rng.random() < 0.3:
+                if mode in TPC_MODES and P[c].get("suspends") and s["sent"] == 0 and rng.random() < 0.3:
                     opts += ["Z"]
             a = rng.choice(opts)
             if a == "A":
@@ -1101,7 +1143,7 @@ def gen_random(rng, mode, nconn=None):
                 s["res"] = True
             ev.append(a)
         evs.append(tuple(ev))
-    tmo = rng.choice([0, 0, 0, 0, 5]) if mode in ("select", "poll", "tpc") else 0   # timeout lists are C10's; the epoll model needs 0
+    tmo = rng.choice([0, 0, 0, 0, 5]) if mode in ("select", "poll", "tpc", "tpcs") else 0   # timeout lists are C10's; the epoll model needs 0
     susp = 1 if any(p.get("suspends") for p in P) or rng.random() < 0.6 else 0
     return Case("r", mode, profs, evs, drain=100 if small else 30, timeout=tmo, strict=rng.random() < 0.5, suspend=susp)
 
@@ -1149,7 +1191,8 @@ class Spec:
                          "Mhd.C06.tpc_resume_is_served", "Mhd.C06.tpc_progress_one_iteration", "Mhd.C06.tpc_progress",
                          "Mhd.C06.tpc_no_recheck_loses_wakeup", "Mhd.C06.tpc_unnoticed_resume_loses_wakeup",
                          "Mhd.C06.tpc_unnoticed_resume_breaks_invariant", "Mhd.C06.connsm_wait_class_in_table",
-                         "Mhd.C06.code_reply_sent_continues", "Mhd.C06.reply_sent_leaves_no_unexamined_input", "Mhd.C06.reply_sent_break_loses_wakeup"]
+                         "Mhd.C06.code_backends_resume_every_cycle", "Mhd.C06.daemon_cycle_processes_resumes", "Mhd.C06.tpc_resume_request_is_served",
+                         "Mhd.C06.deaf_daemon_never_resumes", "Mhd.C06.code_reply_sent_continues", "Mhd.C06.reply_sent_leaves_no_unexamined_input", "Mhd.C06.reply_sent_break_loses_wakeup"]
     trusted_base = ["Lean 4 kernel", "axioms: propext, Classical.choice, Quot.sound at most (audited per theorem)",
                     "hand-written loop model lean/Mhd/Model/Loop.lean, LoopRounds.lean, LoopTpc.lean tied to daemon.c by this run's correspondence "
                     "(handler-call order, list contents and order, flags, epoll bits, fd sets, hint class predicted for every logged round)",
@@ -1160,8 +1203,7 @@ class Spec:
                     "LawsEp (LoopEpoll), ProgLaws / LawOpen (LoopProgress); frame, idle_where, idle_closed/LawOpen, read_force, idle_quiet, idle_buffered are "
                     "monitored on every logged handler call, idle_sync and ProgLaws are what the independent oracle tests end-to-end"]
     assumptions = ["event loops in the correspondence: external select, external epoll, MHD_poll_all with the internal thread and thread-per-connection "
-                   "(poll) — the last two in lock-step through an interposed, gated poll(); thread-per-connection with select() and the thread pool "
-                   "are not run",
+                   "(poll and select) — the last two in lock-step through interposed, gated poll() / select(); the thread pool is not run",
                    "thread-per-connection model: one iteration of a connection's thread (blocking call returned -> handlers -> loop head -> next "
                    "blocking call) is atomic with respect to the daemon thread; a resume is processed between iterations, including right after "
                    "the iteration in which the handler suspended (the harness has that scheduling point); theorems tpc_* hold for resumes at any "
@@ -1215,7 +1257,7 @@ class Spec:
             cs = cases[k]
             items = parse_case(ll)
             per_case.append(items)
-            inp, exp, lab = to_driver_tpc(cs, items, stats) if cs.mode == "tpc" else to_driver(cs, items)
+            inp, exp, lab = to_driver_tpc(cs, items, stats) if cs.mode in TPC_MODES else to_driver(cs, items)
             for j in range(len(inp)):
                 dinp.append(inp[j]); dexp.append(exp[j]); dmeta.append((k, lab[j]))
         mout, mrc, merr = vlib.run_lines(self.driver, dinp, timeout=900)
@@ -1255,7 +1297,7 @@ class Spec:
                         stats["rounds_ending_in_process"] += 1
                     if it[2].get("hint") == "none":
                         stats["quiescent_reports"] += 1
-            law = law_monitor(tpc_segments(items) if cs.mode == "tpc" else items, tmo0=(cs.timeout == 0))
+            law = law_monitor(tpc_segments(items) if cs.mode in TPC_MODES else items, tmo0=(cs.timeout == 0))
             orc = oracle(cs, items)
             cs.orc_errs = orc
             if orc:
@@ -1333,6 +1375,10 @@ class Spec:
         for L in range(1, exh_len + 1):      # thread-per-connection, every thread driven in lock-step through the gated poll()
             exh += list(gen_exhaustive("tpc", L, pairs_tpc, strict=True))
         ntpc = len(exh) - ntpc0
+        pairs_tpcs = [("S", "C"), ("C", "S"), ("S", "S")] if not thorough else [(a, b) for a in "GCS" for b in "GCS"] + pipe_pairs
+        for L in range(1, exh_len + 1):      # … and with the select() back-end (interposed, gated select())
+            exh += list(gen_exhaustive("tpcs", L, pairs_tpcs, strict=True))
+        ntpcs = len(exh) - ntpc0 - ntpc
         nstrict0 = len(exh)
         for L in range(1, exh_len):        # the same schedules with an application that calls the loop only when obliged to
             exh += list(gen_exhaustive("select", L, pairs_sel, strict=True))
@@ -1342,7 +1388,7 @@ class Spec:
             exh += list(gen_exhaustive("select", L, nosusp, strict=True, suspend=0))
             exh += list(gen_exhaustive("epoll", L, nosusp, strict=True, suspend=0))
         nrand = (20000 if thorough else 1500) * (3 if boost else 1)
-        rnd = [gen_random(ctx.rng, ctx.rng.choice(["select", "select", "epoll", "poll", "tpc"])) for _ in range(nrand)]
+        rnd = [gen_random(ctx.rng, ctx.rng.choice(["select", "select", "select", "epoll", "epoll", "poll", "poll", "tpc", "tpcs"])) for _ in range(nrand)]
         allc = cases + exh + rnd
         self.run_parallel(allc, failures, stats)
         # the same client bytes must be answered (or not) independently of the polling back-end
@@ -1376,7 +1422,7 @@ class Spec:
                        % (exh_len, len(pairs_sel), len(pairs_ep)),
                "samples": [allc[ncorp].key() if len(allc) > ncorp else "", exh[len(exh) // 2].key(), rnd[0].key() if rnd else ""],
                "exhaustive_schedules_select": nsel, "exhaustive_schedules_epoll": npoll0 - nsel, "exhaustive_schedules_poll_thread": npoll,
-               "exhaustive_schedules_thread_per_connection": ntpc,
+               "exhaustive_schedules_thread_per_connection": ntpc, "exhaustive_schedules_thread_per_connection_select": ntpcs,
                "exhaustive_schedules_strict_application": len(exh) - nstrict0, "exhaustive_bound_events": exh_len,
                "random_histories": len(rnd), "corpus": ncorp, "directed": len(directed), "modes": modes, "profiles": profs, "outcomes": stats,
                "correspondence": {"call_handlers / internal_run_from_select / MHD_epoll / resume / new-connection processing / cleanup / "
@@ -1393,7 +1439,10 @@ class Spec:
                                       % (exh_len, len(pairs_tpc), stats.get("tpc_thread_steps", 0), stats.get("tpc_daemon_cycles", 0),
                                          stats.get("tpc_resume_before_loop_head", 0), stats.get("tpc_block_sock_inf", 0), stats.get("tpc_block_sock_0", 0),
                                          stats.get("tpc_block_sock_some", 0), stats.get("tpc_block_itc", 0), stats.get("tpc_block_exit", 0)),
-                                  "thread-per-connection with select() (the other branch of thread_main_handle_connection)": "model and theorems only"},
+                                  "thread-per-connection with select() (MHD_select as the daemon thread's cycle, the select() branch of "
+                                  "thread_main_handle_connection; interposed gated select(), same predictions incl. the bounded 1 s wait for writability)":
+                                      "bounded-exhaustive (schedules <= %d events, 2 connections, %d profile pairs) + directed + random share; thread iterations %d"
+                                      % (exh_len, len(pairs_tpcs), stats.get("tpc_select_thread_steps", 0))},
                "exhaustive": False}
         return failures, cov
 
